@@ -88,7 +88,13 @@ template <typename CharT, typename SizeT>
         u1 = static_cast<CharT>(*lhs++);
         u2 = static_cast<CharT>(*rhs++);
         if (u1 != u2) {
-            return static_cast<int>(u1 - u2);
+            if constexpr (sizeof(CharT) == 1) {
+                auto const l = static_cast<unsigned char>(u1);
+                auto const r = static_cast<unsigned char>(u2);
+                return static_cast<int>(l > r) - static_cast<int>(l < r);
+            } else {
+                return static_cast<int>(u1 > u2) - static_cast<int>(u1 < u2);
+            }
         }
         if (u1 == CharT(0)) {
             return 0;
